@@ -140,7 +140,7 @@ pub fn run(ctx: &Ctx, rep: &mut Report) {
     rep.exhaustive = Some(true);
     rep.note(&format!("exhaustive over components {{x,y,.,..}} up to depth {depth} on both sides, non-escaping non-root paths only"));
     // random deeper paths with repeated separators, trailing slashes and longer names
-    let n = ctx.budget(200_000, 6_000_000);
+    let n = ctx.budget(800_000, 12_000_000);
     let names = ["a", "b", "src", "généré", "x.graphql", "schema.d.ts", "q.d.graphql.ts", "..a", "a..", "...", "𝒳"];
     for case in 0..n {
         let mut rng = ctx.rng("random", case);
